@@ -534,6 +534,11 @@ def evaluate_find(ctx, case):
     area_feature = None
     if area is not None:
         area_feature = DummySubRegion(area[0], area[1], record_length=length)
+        if (area[0] + area[1] + len(genes)) % 2 == 0:
+            # the searched area is one of the record's own (as the protoclusters the RiPP modules search): it then
+            # knows the genes it contains, which are not all the genes that reach into it
+            record.add_subregion(area_feature)
+            ctx.count("class:searched-area-belongs-to-the-record")
 
     extents_per_gene = [gene_extents(parts, strand, length) for parts, strand in genes]
     gene_info = [(parts, exts) for (parts, _), (exts, _) in zip(genes, extents_per_gene)]
